@@ -1016,7 +1016,7 @@ Qed.
 Lemma do_let_R2 args : R2 (do_let rec1 args) (do_let rec2 args).
 Proof.
   unfold do_let. apply R2_bind; [r2|]. intros [varlist rest].
-  destruct (negb (consp rest)); [r2|]. split.
+  destruct (negb (listp rest)); [r2|]. split.
   - apply G_bind; [apply G_let_bind|]. intros bound. apply G_catch; [apply (proj1 (eval_progn_R2 rest))|].
     intros r. apply G_bind; [apply G_unbind_all|intros; apply G_lift].
   - intros s1 s2 r s1' HS Hw H Hr Hq. unfold bind at 1 in H. unfold bind at 1.
